@@ -143,6 +143,7 @@ def gen_case(rng, i, nprocs):
     p.close()
     p.emit("*", "barrier")
     p.emit(0, "snapshot", path="s:@OUT@/c06.nc", tag="final")
+    p.emit("*", "balance", final=1)
     return Case("c06_%05d" % i, nprocs, p.s.lines, meta={"expect": p.expect, "fm": p.fm, "feat": feats | {("nrecs", p.target_recs, len([v for v in p.fm.vars if v.isrec]) > 1)},
                                                            "aborts": getattr(p, "meta_abort", []), "nel": p.nelems_checked})
 
